@@ -19,7 +19,7 @@ def rule_R15_2(ctx):
     prog = ctx.prog
     r = RuleResult("R15.2", "`->len()` reports a byte length",
                    "a character count would disagree with byte indexing")
-    pv = prov.Prov(prog, terminal=units.is_measure)
+    pv = prov.Prov(prog, terminal=units.is_measure, foreign="stop")
     n = 0
     for f in prog.hand_fns():
         if not f.module.startswith("builtins") or f.from_expansion:
